@@ -47,7 +47,11 @@ func c20Nonces(c *ctx) {
 			if st.Parent() != pr.Rounds[0].Fns["Start"] {
 				ok, why = false, "the nonce is not drawn in the first round's Start"
 			}
-			call, isS := core.IsCallTo(core.Strip(st.Val), "~/common.GetRandomPositiveInt")
+			// (the draw may sit in a private helper of the first round's Start that hands the nonce back)
+			call, isS := core.IsCallTo(core.ResolveIn(st.Parent(), st.Val), "~/common.GetRandomPositiveInt")
+			if isS && call.Parent() != st.Parent() && !syncUnit(st.Parent())[call.Parent()] {
+				isS = false
+			}
 			if !isS {
 				ok, why = false, "the nonce is "+descr(st.Val)+", not a direct draw from common.GetRandomPositiveInt: a derived or cached nonce repeats across sessions"
 			} else {
@@ -58,10 +62,8 @@ func c20Nonces(c *ctx) {
 					ok, why = false, "the nonce is not drawn below the curve order"
 				}
 				// not in a loop, dominated by the started guard only
-				for _, l := range loopsOf(st.Parent()) {
-					if l.In[call.Block()] {
-						ok, why = false, "the nonce draw sits in a loop"
-					}
+				if enclosingLoopInUnit(st.Parent(), call, 0) != nil {
+					ok, why = false, "the nonce draw sits in a loop"
 				}
 			}
 		}
